@@ -245,6 +245,21 @@ class ArrayReadCode(Engine):
         self.cur = 'readcodelanguages'
         if tuple(a.readcodelanguages) != tuple(sorted(offered)):
             raise Viol('readcode.languages', 'not_exactly_the_offered_ones', f'{a.readcodelanguages} != {sorted(offered)}')
+        # a second array of the same numeric type but the other dimensionality in the same process:
+        # what is offered depends on the array, never on what was asked of another object before
+        sshape = [3, 2] if ndim == 1 else [4]
+        sib = darr.asarray(os.path.join(work, 'sibling.darr'), make_values(sshape, dtype, sc['vseed'] + 1))
+        sexp = sorted(l for l in ARRAY_LANGS_ALL
+                      if l == 'darr' or (types[numtype][COL[l]] and (len(sshape) == 1 or ndt['N-D array'][COL[l]])))
+        if list(sib.readcodelanguages) != sexp:
+            raise Viol('readcode.languages', 'second_array_in_same_process', f'ndim={len(sshape)} after ndim={ndim}: '
+                       f'{list(sib.readcodelanguages)} != {sexp}')
+        for l in ARRAY_LANGS_ALL:
+            if (sib.readcode(l) is not None) != (l in sexp):
+                raise Viol('readcode.table', f'{l}:second_array_in_same_process', f'ndim={len(sshape)}')
+        if list(a.readcodelanguages) != sorted(offered):
+            raise Viol('readcode.languages', 'changed_after_other_array_was_queried', '')
+        st['probes']['sibling_checked'] = st['probes'].get('sibling_checked', 0) + 1
         st['transitions'].add(f'{numtype}|{D.dtstr(dtype)[0]}|{ndim}d|{mode}|{"empty" if empty else "data"}')
         st['probes'][f'cell:{D.dtstr(dtype)}:{ndim}:{mode}'] = 1
         emit({'dtype': D.dtstr(dtype), 'shape': list(model.shape), 'mode': mode, 'offered': offered})
